@@ -1,0 +1,407 @@
+//! Verification hooks, compiled only with the cargo feature `verif`.
+//!
+//! * [`run_in_memory`] builds the real [`Interpreter`] over in-memory
+//!   stdin / stdout / LPT1, a headless screen and a map-backed environment
+//!   (this mirrors what `test_utils` does under `cfg(test)`).
+//! * A per-instruction monitor (called from the fetch-execute loop) counts
+//!   instructions against a budget and records the depths of the VM stacks
+//!   and the types of the variables of the current memory block.
+//!
+//! The hooks observe and bound execution, they never alter what an instruction does.
+
+use std::collections::HashMap;
+use std::io::{Cursor, Write};
+use std::sync::{Arc, Mutex};
+
+use rusty_parser::{ElementType, TypeQualifier, UserDefinedTypes};
+use rusty_variant::Variant;
+
+use super::Interpreter;
+use crate::instruction_generator::InstructionGeneratorResult;
+use crate::interpreter::Stdlib;
+use crate::interpreter::interpreter_trait::InterpreterTrait;
+use crate::interpreter::io::{Input, Printer};
+use crate::interpreter::read_input::ReadInputSource;
+use crate::interpreter::screen::Screen;
+use crate::interpreter::write_printer::WritePrinter;
+use crate::{RuntimeError, RuntimeErrorPos};
+
+/// A byte buffer that stays readable by the caller even if the interpreter panics.
+pub type SharedBuf = Arc<Mutex<Vec<u8>>>;
+
+pub struct SharedWriter(pub SharedBuf);
+
+impl Write for SharedWriter {
+    fn write(&mut self, buf: &[u8]) -> std::io::Result<usize> {
+        self.0.lock().unwrap().extend_from_slice(buf);
+        Ok(buf.len())
+    }
+
+    fn flush(&mut self) -> std::io::Result<()> {
+        Ok(())
+    }
+}
+
+pub struct RunConfig {
+    pub stdin: Vec<u8>,
+    pub env: HashMap<String, String>,
+    /// Maximum number of instructions to execute (0 = unlimited).
+    pub budget: u64,
+    /// Record a [`DepthRecord`] at every statement start address.
+    pub record_statement_depths: bool,
+    /// Record a [`DepthRecord`] before every instruction.
+    pub record_all_depths: bool,
+    /// Maximum number of records kept.
+    pub trace_cap: usize,
+    /// Check the types of the variables of the current memory block at every statement start.
+    pub check_types: bool,
+}
+
+impl Default for RunConfig {
+    fn default() -> Self {
+        Self {
+            stdin: vec![],
+            env: HashMap::new(),
+            budget: 0,
+            record_statement_depths: false,
+            record_all_depths: false,
+            trace_cap: 4096,
+            check_types: false,
+        }
+    }
+}
+
+/// The sizes of the VM's stacks before the instruction at `pc` executes.
+#[derive(Clone, Copy, Debug, PartialEq, Eq, Hash)]
+pub struct DepthRecord {
+    pub pc: usize,
+    pub value_stack: usize,
+    pub register_stack: usize,
+    pub var_path_stack: usize,
+    pub by_ref_stack: usize,
+    pub context_states: usize,
+    pub top_state_collects_arguments: bool,
+    pub memory_blocks: usize,
+    pub return_address_stack: usize,
+    pub go_sub_address_stack: usize,
+    pub stacktrace: usize,
+    pub function_result_pending: bool,
+    pub at_statement_start: bool,
+}
+
+#[derive(Clone, Debug, Default)]
+pub struct Monitor {
+    pub instructions: u64,
+    pub budget_exhausted: bool,
+    pub trace: Vec<DepthRecord>,
+    pub trace_truncated: bool,
+    /// Largest value seen for each stack (same order as the fields of `DepthRecord`:
+    /// value, register, var_path, by_ref, states, blocks, ret, gosub, stacktrace).
+    pub max_depths: [usize; 9],
+    /// First offence found by the typed-variable monitor: (pc, description).
+    pub type_violation: Option<(usize, String)>,
+    /// Number of (variable, statement start) pairs the typed-variable monitor looked at.
+    pub type_checks: u64,
+    /// The variables of the global memory block when the run ended without panicking.
+    pub final_globals: Vec<(String, String)>,
+}
+
+pub type SharedMonitor = Arc<Mutex<Monitor>>;
+
+/// State attached to the interpreter while a monitored run is in progress.
+pub struct VerifState {
+    budget: u64,
+    record_statement_depths: bool,
+    record_all_depths: bool,
+    trace_cap: usize,
+    check_types: bool,
+    statement_start: Vec<bool>,
+    monitor: SharedMonitor,
+}
+
+struct VerifStdlib {
+    env: HashMap<String, String>,
+}
+
+impl Stdlib for VerifStdlib {
+    fn system(&self) {}
+
+    fn get_env_var(&self, name: &str) -> String {
+        self.env.get(name).cloned().unwrap_or_default()
+    }
+
+    fn set_env_var(&mut self, name: String, value: String) {
+        self.env.insert(name, value);
+    }
+}
+
+struct VerifScreen {
+    view_print: Option<(usize, usize)>,
+}
+
+impl Screen for VerifScreen {
+    fn cls(&self) -> Result<(), RuntimeError> {
+        Ok(())
+    }
+
+    fn background_color(&self, _color: i32) -> Result<(), RuntimeError> {
+        Ok(())
+    }
+
+    fn foreground_color(&self, _color: i32) -> Result<(), RuntimeError> {
+        Ok(())
+    }
+
+    fn move_to(&self, _row: u16, _col: u16) -> Result<(), RuntimeError> {
+        Ok(())
+    }
+
+    fn show_cursor(&self) -> Result<(), RuntimeError> {
+        Ok(())
+    }
+
+    fn hide_cursor(&self) -> Result<(), RuntimeError> {
+        Ok(())
+    }
+
+    fn get_view_print(&self) -> Option<(usize, usize)> {
+        self.view_print
+    }
+
+    fn set_view_print(&mut self, start_row: usize, end_row: usize) {
+        self.view_print = Some((start_row, end_row));
+    }
+
+    fn reset_view_print(&mut self) {
+        self.view_print = None;
+    }
+}
+
+/// Runs the given instructions on the real interpreter with in-memory devices.
+///
+/// `stdout`, `lpt1` and `monitor` are shared with the caller, so that whatever
+/// was written and recorded survives a panic of the interpreter (the caller is
+/// expected to wrap this call in `catch_unwind`).
+pub fn run_in_memory(
+    instruction_generator_result: InstructionGeneratorResult,
+    user_defined_types: UserDefinedTypes,
+    config: RunConfig,
+    stdout: SharedBuf,
+    lpt1: SharedBuf,
+    monitor: SharedMonitor,
+) -> Result<(), RuntimeErrorPos> {
+    let RunConfig {
+        stdin,
+        env,
+        budget,
+        record_statement_depths,
+        record_all_depths,
+        trace_cap,
+        check_types,
+    } = config;
+    let mut interpreter = Interpreter::new(
+        VerifStdlib { env },
+        ReadInputSource::new(Cursor::new(stdin)),
+        WritePrinter::new(SharedWriter(stdout)),
+        WritePrinter::new(SharedWriter(lpt1)),
+        VerifScreen { view_print: None },
+        user_defined_types,
+    );
+    interpreter.verif = Some(VerifState {
+        budget,
+        record_statement_depths,
+        record_all_depths,
+        trace_cap,
+        check_types,
+        statement_start: vec![],
+        monitor: Arc::clone(&monitor),
+    });
+    let result = interpreter.interpret(instruction_generator_result);
+    let final_globals: Vec<(String, String)> = interpreter
+        .context()
+        .global_variables()
+        .verif_entries()
+        .map(|(name, value)| (name.to_string(), format!("{:?}", value)))
+        .collect();
+    monitor.lock().unwrap().final_globals = final_globals;
+    result
+}
+
+impl<TStdlib: Stdlib, TStdIn: Input, TStdOut: Printer, TLpt1: Printer>
+    Interpreter<TStdlib, TStdIn, TStdOut, TLpt1>
+{
+    /// Called once when `interpret` starts.
+    pub(super) fn verif_begin(&mut self, instruction_count: usize, statement_addresses: &[usize]) {
+        if let Some(state) = self.verif.as_mut() {
+            let mut statement_start = vec![false; instruction_count + 1];
+            for address in statement_addresses {
+                if *address < statement_start.len() {
+                    statement_start[*address] = true;
+                }
+            }
+            state.statement_start = statement_start;
+        }
+    }
+
+    /// Called before the instruction at `pc` executes.
+    /// Returns `true` if the run must stop because the instruction budget is exhausted.
+    pub(super) fn verif_before_instruction(&mut self, pc: usize) -> bool {
+        let Some(state) = self.verif.as_ref() else {
+            return false;
+        };
+        let at_statement_start = state.statement_start.get(pc).copied().unwrap_or(false);
+        let (context_states, top_state_collects_arguments, memory_blocks) =
+            self.context.verif_depths();
+        let record = DepthRecord {
+            pc,
+            value_stack: self.value_stack.len(),
+            register_stack: self.register_stack.len(),
+            var_path_stack: self.var_path_stack.len(),
+            by_ref_stack: self.by_ref_stack.len(),
+            context_states,
+            top_state_collects_arguments,
+            memory_blocks,
+            return_address_stack: self.return_address_stack.len(),
+            go_sub_address_stack: self.go_sub_address_stack.len(),
+            stacktrace: self.stacktrace.len(),
+            function_result_pending: self.function_result.is_some(),
+            at_statement_start,
+        };
+        let mut monitor = state.monitor.lock().unwrap();
+        if state.budget > 0 && monitor.instructions >= state.budget {
+            monitor.budget_exhausted = true;
+            return true;
+        }
+        monitor.instructions += 1;
+        let depths = [
+            record.value_stack,
+            record.register_stack,
+            record.var_path_stack,
+            record.by_ref_stack,
+            record.context_states,
+            record.memory_blocks,
+            record.return_address_stack,
+            record.go_sub_address_stack,
+            record.stacktrace,
+        ];
+        for (max, depth) in monitor.max_depths.iter_mut().zip(depths.iter()) {
+            if *depth > *max {
+                *max = *depth;
+            }
+        }
+        if state.record_all_depths || (state.record_statement_depths && at_statement_start) {
+            if monitor.trace.len() < state.trace_cap {
+                monitor.trace.push(record);
+            } else {
+                monitor.trace_truncated = true;
+            }
+        }
+        if state.check_types
+            && at_statement_start
+            && !top_state_collects_arguments
+            && monitor.type_violation.is_none()
+        {
+            for (name, value) in self.context.variables().verif_entries() {
+                monitor.type_checks += 1;
+                let offence = match name.qualifier() {
+                    Some(q) => check_qualified(q, value),
+                    None => check_user_defined_root(value, &self.user_defined_types),
+                };
+                if let Some(offence) = offence {
+                    monitor.type_violation = Some((pc, format!("{} holds {}", name, offence)));
+                    break;
+                }
+            }
+        }
+        false
+    }
+}
+
+const MAX_ELEMENTS_CHECKED: usize = 4096;
+
+fn check_qualified(q: TypeQualifier, value: &Variant) -> Option<String> {
+    match value {
+        Variant::VArray(array) => {
+            for index in 0..array.len().min(MAX_ELEMENTS_CHECKED) {
+                if let Some(element) = array.get(index)
+                    && let Some(offence) = check_scalar(q, element)
+                {
+                    return Some(format!("element #{} = {}", index, offence));
+                }
+            }
+            None
+        }
+        _ => check_scalar(q, value),
+    }
+}
+
+fn check_scalar(q: TypeQualifier, value: &Variant) -> Option<String> {
+    let ok = match (q, value) {
+        (TypeQualifier::PercentInteger, Variant::VInteger(i)) => (-32768..=32767).contains(i),
+        (TypeQualifier::AmpersandLong, Variant::VLong(l)) => {
+            (-2147483648_i64..=2147483647_i64).contains(l)
+        }
+        (TypeQualifier::BangSingle, Variant::VSingle(f)) => f.is_finite(),
+        (TypeQualifier::HashDouble, Variant::VDouble(d)) => d.is_finite(),
+        (TypeQualifier::DollarString, Variant::VString(_)) => true,
+        _ => false,
+    };
+    if ok {
+        None
+    } else {
+        Some(format!("{:?}", value))
+    }
+}
+
+fn check_user_defined_root(value: &Variant, types: &UserDefinedTypes) -> Option<String> {
+    // An unqualified name is a variable of a user defined type, an array of
+    // them, or an unnamed argument of a built-in (never checked).
+    match value {
+        Variant::VUserDefined(_) => check_user_defined(value, types, 0),
+        Variant::VArray(array) => {
+            for index in 0..array.len().min(MAX_ELEMENTS_CHECKED) {
+                if let Some(element) = array.get(index)
+                    && let Variant::VUserDefined(_) = element
+                    && let Some(offence) = check_user_defined(element, types, 0)
+                {
+                    return Some(format!("element #{}: {}", index, offence));
+                }
+            }
+            None
+        }
+        _ => None,
+    }
+}
+
+fn check_user_defined(value: &Variant, types: &UserDefinedTypes, depth: usize) -> Option<String> {
+    let Variant::VUserDefined(record) = value else {
+        return Some(format!("{:?} (expected a record)", value));
+    };
+    if depth > 8 {
+        return None;
+    }
+    // find the type whose element names match the names of the value
+    let names: Vec<_> = record.names().cloned().collect();
+    let candidate = types.values().find(|t| {
+        let element_names: Vec<_> = t.elements().map(|e| e.element.name.clone()).collect();
+        element_names == names
+    })?;
+    for element in candidate.elements() {
+        let field = record.get(&element.element.name)?;
+        let offence = match &element.element.element_type {
+            ElementType::Integer => check_scalar(TypeQualifier::PercentInteger, field),
+            ElementType::Long => check_scalar(TypeQualifier::AmpersandLong, field),
+            ElementType::Single => check_scalar(TypeQualifier::BangSingle, field),
+            ElementType::Double => check_scalar(TypeQualifier::HashDouble, field),
+            ElementType::FixedLengthString(_, len) => match field {
+                Variant::VString(s) if s.len() == *len as usize => None,
+                other => Some(format!("{:?} (expected STRING * {})", other, len)),
+            },
+            ElementType::UserDefined(_) => check_user_defined(field, types, depth + 1),
+        };
+        if let Some(offence) = offence {
+            return Some(format!("field {} = {}", element.element.name, offence));
+        }
+    }
+    None
+}
